@@ -39,7 +39,10 @@ WIRING = {
 FLIPPER_COILS = ["c_fd_main", "c_fd_hold", "c_fs", "c_fe"]
 GROUPS = {"flippers": ["f_dual", "f_single", "f_eos"], "autofire": ["a_sling", "a_pop", "a_to", "k1"],
           # the EOS flipper with software repulse, driven through its physical button and end-of-stroke switches
-          "eos": ["f_eos"]}
+          "eos": ["f_eos"],
+          # one flipper, game lifecycle only, with the ball_starting queue held by a handler (a show or a ball device would
+          # do that): tilts, drains and requests land between two balls, while the next ball's start is pending
+          "between": ["f_single"]}
 
 
 class RulesDriver(MachineDriver):
@@ -93,6 +96,16 @@ class RulesDriver(MachineDriver):
         m.events.add_handler("tilt", self._ev, priority=-100, _e="tilt")
         self.to_hits = 0
         self.to_reenable_at = None
+        self.hold_armed = False
+        self.held = None
+        m.events.add_handler("ball_starting", self._hold_ball_starting, priority=50)
+
+    def _hold_ball_starting(self, queue=None, **kwargs):
+        if self.hold_armed and queue is not None and self.held is None:
+            self.hold_armed = False
+            queue.wait()
+            self.held = queue
+            self.stat("ball_starts_held")
 
     def _wrap_set(self, meth, orig):
         def f(*args, **kwargs):
@@ -111,6 +124,10 @@ class RulesDriver(MachineDriver):
         if _e == "ball_started":
             self.in_play = True
             self.tilted = False
+            if self.m.game and self.m.game.tilted:
+                # a tilted machine has dead buttons until the tilt is over: a ball that starts meanwhile enables nothing
+                self.stat("ball_started_while_tilted")
+                return
             for n in self.ref:
                 if n != "k1":
                     self.ref[n] = True
@@ -140,6 +157,8 @@ class RulesDriver(MachineDriver):
             for sw in ("s_flip_e", "s_eos_e"):
                 out.append(["sw", sw, 0 if self.m.switches[sw].state else 1])
             return out + [["start"], ["drain"]]
+        if self.group == "between":
+            return out + [["start"], ["drain"], ["tilt"], ["slam"], ["hold"], ["unhold"], ["end_game"]]
         if self.group == "flippers":
             for n in ("f_dual", "f_single"):
                 out.append(["flip", n])
@@ -202,6 +221,14 @@ class RulesDriver(MachineDriver):
         elif k == "end_game":
             if m.game:
                 fakegame.end_game(self.sys)
+        elif k == "hold":
+            self.hold_armed = True
+        elif k == "unhold":
+            self.hold_armed = False
+            if self.held is not None:
+                q, self.held = self.held, None
+                q.clear()
+                self.loop.advance(0.05)
 
     # ---- oracle ----------------------------------------------------------------------------------
     def rule_table(self):
@@ -255,7 +282,7 @@ class RulesDriver(MachineDriver):
         m = self.m
         g = m.game
         return (tuple(sorted(self.rule_table())), tuple(sorted((n, bool(d._enabled)) for n, d in self.all_devs.items())),
-                tuple(sorted(self.ref.items())), self.in_play, self.service, self.tilted,
+                tuple(sorted(self.ref.items())), self.in_play, self.service, self.tilted, self.hold_armed, self.held is not None,
                 (g.num_players, g.player.number if g.player else None, g.player.ball if g.player else None, g.balls_in_play,
                  g.tilted, g.slam_tilted, g.ending) if g else None,
                 tuple(sorted(self.coil_on.items())), tuple(getattr(d, "_sw_flipped", None) for d in self.devs.values()),
@@ -292,7 +319,7 @@ def make(group):
 
 def body(ctx):
     quick = ctx.tier == "quick"
-    groups = ["flippers", "autofire", "eos"]
+    groups = ["flippers", "autofire", "eos", "between"]
     res = bfs([make(g) for g in groups], 6 if quick else 7, observe=True)
     for s in res.samples[:3]:
         ctx.sample(s)
@@ -305,7 +332,7 @@ def body(ctx):
     ctx.assume("fake game without ball devices (ball search and real drains are not part of this machine); service mode is "
                "represented by its service_mode_entered/exited events", "BFS depth 6 (quick) / 7 (thorough) per device group",
                "an explicit enable request issued while the ball is not in play is honoured by MPF and not judged")
-    return ("sw_flips", "autofire_hits", "ball_ends", "tilts", "service_entries", "dead_states")
+    return ("sw_flips", "autofire_hits", "ball_ends", "tilts", "service_entries", "dead_states", "ball_starts_held")
 
 
 def replay(ctx, data):
